@@ -29,8 +29,6 @@ import (
 	"math"
 	"os"
 	"path/filepath"
-	"runtime"
-	"runtime/debug"
 	"sort"
 	"strings"
 	"testing"
@@ -538,6 +536,11 @@ func c06Abbrev(items []string) string {
 	return b.String()
 }
 
+// c06TB is what the runner needs from *rapid.T / *testing.T.
+type c06TB interface {
+	Fatalf(format string, args ...any)
+}
+
 type c06Runner struct {
 	lg        *c06Log
 	readDir   string
@@ -587,7 +590,7 @@ func (r *c06Runner) fileRef(d c06Damage) (ref []string, exact bool) {
 	return ref, d.Kind == "trunc"
 }
 
-func (r *c06Runner) judge(t *rapid.T, what string, d c06Damage, got, ref []string, exact bool) {
+func (r *c06Runner) judge(t c06TB, what string, d c06Damage, got, ref []string, exact bool) {
 	if exact {
 		if !c06Equal(got, ref) {
 			class := "C06/truncation-hides-complete-entry"
@@ -605,7 +608,7 @@ func (r *c06Runner) judge(t *rapid.T, what string, d c06Damage, got, ref []strin
 	}
 }
 
-func (r *c06Runner) checkRead(t *rapid.T, d c06Damage, damaged []byte) {
+func (r *c06Runner) checkRead(t c06TB, d c06Damage, damaged []byte) {
 	f := r.lg.files[d.File]
 	p := filepath.Join(r.readDir, f.name)
 	if err := os.WriteFile(p, damaged, 0o600); err != nil {
@@ -626,7 +629,7 @@ func (r *c06Runner) checkRead(t *rapid.T, d c06Damage, damaged []byte) {
 	r.judge(t, "Reader.ReadAll", d, got, ref, exact)
 }
 
-func (r *c06Runner) checkRecovery(t *rapid.T, d c06Damage, damaged []byte) {
+func (r *c06Runner) checkRecovery(t c06TB, d c06Damage, damaged []byte) {
 	// fresh directory content: every file of the log, one of them damaged,
 	// modification times increasing in creation order
 	base := time.Unix(1_700_000_000, 0)
@@ -699,7 +702,7 @@ func (r *c06Runner) checkRecovery(t *rapid.T, d c06Damage, damaged []byte) {
 	}
 }
 
-func (r *c06Runner) run(t *rapid.T, d c06Damage, withRecovery bool) {
+func (r *c06Runner) run(t c06TB, d c06Damage, withRecovery bool) {
 	f := &r.lg.files[d.File]
 	damaged := r.apply(d)
 	if d.Kind != "trunc" && damaged[d.Pos] == f.data[d.Pos] {
@@ -716,30 +719,28 @@ func (r *c06Runner) run(t *rapid.T, d c06Damage, withRecovery bool) {
 	if ei >= 0 && !(d.Kind == "trunc" && d.Pos == f.frames[ei].start) {
 		verifkit.NonTrivial(fmt.Sprintf("%s|%d|%d|%s|%s", r.logKey, d.File, ei, fld, d.Kind))
 	}
-	t0 := time.Now()
 	r.checkRead(t, d, damaged)
-	c06Time["read:"+d.Kind+"/"+fld] += time.Since(t0)
-	t0 = time.Now()
 	if withRecovery {
 		r.checkRecovery(t, d, damaged)
 	}
-	c06Time["rec:"+d.Kind+"/"+fld] += time.Since(t0)
 }
 
-var c06Time = map[string]time.Duration{}
+// c06Scratch returns a scratch directory for the thousands of small damaged
+// files: tmpfs when the machine has one (file-system cost dominates otherwise),
+// else the per-run TMPDIR.
+func c06Scratch(t *testing.T) string {
+	if d, err := os.MkdirTemp("/dev/shm", "verif-c06-"); err == nil {
+		t.Cleanup(func() { os.RemoveAll(d) })
+		return d
+	}
+	return t.TempDir()
+}
 
 // ---------------------------------------------------------------- the property
 
 func TestVerifC06_DamageEnumeration(t *testing.T) {
 	exhaustiveLimit := verifkit.Scale(700, 1200)
-	// A corrupted length field makes the reader allocate up to 100 MB per
-	// mis-parsed header. With the default pacing every such allocation starts a
-	// GC cycle across all Ps; collect by memory limit instead and keep the test
-	// on two Ps (it is sequential apart from the writer goroutine).
-	defer runtime.GOMAXPROCS(runtime.GOMAXPROCS(2))
-	defer debug.SetGCPercent(debug.SetGCPercent(-1))
-	defer debug.SetMemoryLimit(debug.SetMemoryLimit(768 << 20))
-	base := t.TempDir()
+	base := c06Scratch(t)
 	caseNo := 0
 	rapid.Check(t, func(t *rapid.T) {
 		caseNo++
@@ -838,9 +839,50 @@ func TestVerifC06_DamageEnumeration(t *testing.T) {
 		}
 	})
 	verifkit.Note("exhaustive_per_file_up_to_bytes", exhaustiveLimit)
-	for k, v := range c06Time {
-		fmt.Printf("TIME %s %v\n", k, v)
+}
+
+// TestVerifC06_BatchedRowReplay enumerates completely a small finite space the
+// random logs reach only occasionally: one row-format entry of 1..5 records
+// between two columnar entries, RecoveryOptions.BatchSize 0..6, every truncation
+// offset of the file. Recovery must deliver exactly the records of the entries
+// lying wholly before the cut, in order, however they are batched.
+func TestVerifC06_BatchedRowReplay(t *testing.T) {
+	base := c06Scratch(t)
+	col := func(m string) c06Op {
+		return c06Op{Kind: "meta", DB: "prod", Payload: c06MarshalColumnar(m, map[string][]interface{}{"time": {int64(1700000000000000)}, "v": {1.5}}), Shape: "plain"}
 	}
+	cases := 0
+	{
+		for nrec := 1; nrec <= 5; nrec++ {
+			rows := make([]map[string]interface{}, nrec)
+			for i := range rows {
+				rows[i] = map[string]interface{}{"_database": "prod", "_measurement": "cpu", "time": int64(1700000000000000 + i), "seq": int64(i)}
+			}
+			ops := []c06Op{col("before"), {Kind: "rows", Rows: rows, Shape: "plain"}, col("after")}
+			dir, err := os.MkdirTemp(base, "c06b-")
+			if err != nil {
+				t.Fatalf("harness: %v", err)
+			}
+			lg, err := c06Build(filepath.Join(dir, "wal"), ops, 1<<20)
+			if err != nil {
+				t.Fatalf("VERIF-FAIL class=C06/writer-does-not-store-what-was-appended %v", err)
+			}
+			for batch := 0; batch <= 6; batch++ {
+				r := &c06Runner{lg: lg, readDir: filepath.Join(dir, "read"), recDir: filepath.Join(dir, "rec"), batchSize: batch,
+					logKey: fmt.Sprintf("batched/%d/%d", nrec, batch)}
+				os.MkdirAll(r.readDir, 0o700)
+				os.MkdirAll(r.recDir, 0o700)
+				for pos := 0; pos <= len(lg.files[0].data); pos++ {
+					r.run(t, c06Damage{File: 0, Kind: "trunc", Pos: pos}, true)
+				}
+				cases += r.evals
+			}
+			os.RemoveAll(dir)
+		}
+	}
+	verifkit.EvalN(cases)
+	verifkit.Class("batched-row-replay:enumerated")
+	verifkit.Note("batched_row_replay_cases", cases)
 }
 
 // ---------------------------------------------------------------- known finding
